@@ -98,6 +98,7 @@ type node struct {
 	names   map[string]string // hex address -> short name
 	gen     *fsm.GenesisState
 	cfg     lib.Config
+	scanFSM *fsm.StateMachine // when set, scan() reads this state machine (e.g. the mempool's working copy) instead of the committed one
 }
 
 func addrName(names map[string]string, a []byte) string {
@@ -330,7 +331,11 @@ type Scan struct {
 }
 
 func (n *node) iterate(prefix []byte, f func(k, v []byte) error) error {
-	it, err := n.c.FSM.Iterator(prefix)
+	sm := n.c.FSM
+	if n.scanFSM != nil {
+		sm = n.scanFSM
+	}
+	it, err := sm.Iterator(prefix)
 	if err != nil {
 		return err
 	}
@@ -354,6 +359,13 @@ func keySegments(k []byte) [][]byte {
 		k = k[1+l:]
 	}
 	return segs
+}
+
+// scanProposal scans the proposer's working state: the state its proposed header commits to
+func (n *node) scanProposal() (*Scan, error) {
+	n.scanFSM = n.c.Mempool.FSM
+	defer func() { n.scanFSM = nil }()
+	return n.scan()
 }
 
 func (n *node) scan() (*Scan, error) {
@@ -430,7 +442,11 @@ func (n *node) scan() (*Scan, error) {
 	}
 	// committees and delegates as the node answers them (this is what C13 compares with the definition)
 	s.Comm = []CommRec{}
-	for _, chain := range []uint64{1, 2, 3} {
+	chains := []uint64{1, 2, 3}
+	if n.scanFSM != nil {
+		chains = nil // committees are a question to the committed state
+	}
+	for _, chain := range chains {
 		cr := CommRec{Chain: chain, Members: []KVu{}, Delegates: []KVu{}}
 		if vs, err := n.c.FSM.GetCommitteeMembers(chain); err == nil {
 			for _, m := range vs.ValidatorSet.ValidatorSet {
